@@ -278,7 +278,8 @@ def _instances():
     return {
         "Jump": Jump(3, True), "Name": Name("n", 2), "Varname": Varname("v", 1), "Cellvar": Cellvar("c", 0), "Freevar": Freevar("f"), "NoArg": NoArg(5),
         "Constant(int)": Constant(7, 1), "Constant(tuple)": Constant((1, (2.5, "s"), b"b", None, ...), None), "Constant(frozenset)": Constant(frozenset([1, "a"])),
-        "Constant(big)": Constant(2 ** 70), "Constant(float-specials)": Constant((float("inf"), float("-inf"), -0.0, 1j)),
+        "Constant(big)": Constant(2 ** 70), "Constant(bytes needing + and / in base64)": Constant((b"\xff\xfe?>", b"", b"\x00" * 5)),
+        "Constant(mixed frozenset)": Constant(frozenset([1, "a", None, b"a", (1, 2)])), "Constant(float-specials)": Constant((float("inf"), float("-inf"), -0.0, 1j)),
         "Instruction": Instruction("OP", Name("x"), 3, 10, (1, 2)), "Instruction(int arg)": Instruction("CALL", 300, None, None),
         "Instruction(no arg, line offsets)": Instruction("POP_TOP", NoArg(), None, 7, (0, 3)),
         "Constant(complex specials)": Constant((complex(0.0, float("inf")), complex(-0.0, 2.0), complex(1.0, -0.0), complex(float("nan"), 0.0))),
@@ -293,6 +294,17 @@ def _instances():
         "CodeData(nested)": CodeData(blocks=((Instruction("LOAD_CONST", Constant(CodeData(blocks=(body,), filename="f.py", first_line_number=1, name="inner", stacksize=1))),),),
                                      filename="f.py", first_line_number=1, name="outer", stacksize=1),
     }
+
+
+def _deep_immutable(x):
+    import dataclasses
+    if isinstance(x, (list, dict, set, bytearray)):
+        return False
+    if isinstance(x, (tuple, frozenset)):
+        return all(_deep_immutable(e) for e in x)
+    if dataclasses.is_dataclass(x) and not isinstance(x, type):
+        return all(_deep_immutable(getattr(x, f.name)) for f in dataclasses.fields(x))
+    return True
 
 
 @harness("json.dataclass_positions.roundtrip", props=["C07", "C08", "C15", "C06", "C12"], functions=["code_data._json_data.value_to_json", "code_data._json_data.code_data_from_json",
@@ -340,6 +352,15 @@ def h_positions(ctx, cfg):
         except TypeError:
             hashable = False
         ctx.prove("loaded_value_is_hashable[%s]" % name, z3.BoolVal(hashable))
+    # explicit defaults spelled out by a hand-written, schema-valid document: the result must not alias the document
+    doc = {"blocks": [[{"name": "NOP", "_line_offsets_override": [], "arg": {"name": "n"}}]], "filename": "f", "first_line_number": 1, "name": "n", "stacksize": 1, "freevars": [],
+           "_additional_args": [], "type": {"args": {"positional_only": [], "positional_or_keyword": ["a"], "keyword_only": []}},
+           "_additional_line": {"line": 3, "additional_offsets": [1, 2]}}
+    loaded = J.code_data_from_json(json.loads(json.dumps(doc)))
+    ctx.prove("loaded_value_holds_no_mutable_container(explicit empty arrays included)", z3.BoolVal(_deep_immutable(loaded)), detail=repr(loaded))
+    for name, v in inst.items():
+        if isinstance(v, CodeData):
+            ctx.prove("loaded_value_holds_no_mutable_container[%s]" % name, z3.BoolVal(_deep_immutable(J.code_data_from_json(json.loads(json.dumps(J.value_to_json(v)))))))
     # the published schema accepts the document of every CodeData representative (independent jsonschema library)
     try:
         import jsonschema
